@@ -56,6 +56,8 @@ ASSUMPTIONS = [
 TP = ["BPMS", "STOPS", "DELAYS", "TIMESIGNATURES", "TICKCOUNTS", "COMBOS", "WARPS", "SPEEDS", "SCROLLS", "FAKES", "LABELS"]
 LISTS = (("bpms", "BPMS"), ("stops", "STOPS"), ("delays", "DELAYS"), ("warps", "WARPS"))
 VERSIONS = [None, "", "0.69", "0.7", "0.70", "0.83", "1.0"]
+RESPELL = {"0.69": ["0.69", " 0.69", ".69", "0.690"], "0.7": ["0.7", ".7", " 0.7", "+0.7"], "0.70": ["0.70", "0.70 ", "00.70"],
+           "0.83": ["0.83", " 0.83", "+0.83", "0.83\n"], "1.0": ["1.0", "1", " 1.0", "1."]}
 NPAT = 3**11
 CH = NPAT + 2
 NCORE = 14 * CH
@@ -288,6 +290,14 @@ def judge(cx, kind, ver, r, s, igns, simv, chv, sim_dbpm, ch_dbpm, route=0, none
     # an SM simfile may spell its stops FREEZES (the documented legacy alias of STOPS): every other SM configuration does
     legacy = kind == 0 and (s + r + ver + route) % 2 == 1
     real_pairs = [("FREEZES" if (legacy and k == "STOPS") else k, v) for k, v in sim_pairs]
+    # the version is a number: the same number in another spelling (blank after the colon, sign, bare dot) is the same version
+    salt = s + r + route
+    real_pairs = [(k, RESPELL.get(v, [v])[salt % len(RESPELL.get(v, [v]))] if k == "VERSION" else v) for k, v in real_pairs]
+    if kind == 1 and salt % 2 == 1:
+        # FREEZES is an alias of STOPS on SM simfiles only: on an SSC simfile (and chart) it is just another key
+        real_pairs.append(("FREEZES", "9.000=9.000"))
+        if ch_pairs is not None:
+            ch_pairs = list(ch_pairs) + [("FREEZES", "8.000=8.000")]
     sim, chart = build(cx, kind, r, real_pairs, ch_pairs, route)
     if legacy and labels is not None and any(k == "STOPS" for k, _ in sim_pairs):
         labels.append("sm-stops-spelled-FREEZES")
